@@ -184,7 +184,7 @@ def firstDivergence : List (Routed × Expect) → List PRep → Option Cls → B
     else some (r.cls.name ++ "-reply-differs")
 
 def P_C18 (nf : String → PRep) (mode client : String) (hasPayload pipelinedPayload : Bool) (routed : List Routed)
-    (o : Obs) : Verdict :=
+    (o : Obs) (greeting : List UInt8 := []) : Verdict :=
   -- malformed frames and ill-typed GetInterfaceDescription parameters are not calls: outside the property
   if routed.any (fun r => r.cls == .bad || r.cls == .getdescIllTyped) then none
   else
@@ -225,6 +225,14 @@ def P_C18 (nf : String → PRep) (mode client : String) (hasPayload pipelinedPay
           -- a service that drops its connection is an I/O error for the bridge
           else if exps.any (·.afterAbort) then none
           else some ("exit-status-" ++ o.exit ++ "-after-client-close")
+    else if (mode == "resolver" || mode == "bridge2") && !greeting.isEmpty &&
+        (firstDivergence (routed.zip exps) b.out none false).isNone &&
+        (let expected := if b.ending == "timeout" then greeting else (o.direct.map (·.2.2)).flatten
+         let lost := expected.length - b.raw.length
+         0 < lost && lost ≤ 8192 && b.raw.length < expected.length && expected.drop lost == b.raw) then
+      -- the service speaks first (its greeting comes with the reply to the upgrading call): the client is
+      -- missing a prefix of it no longer than the bridge's read buffer
+      some "service-bytes-behind-upgrade-reply-lost"
     else if b.ending == "timeout" then
       -- the bridge stopped answering.  When the direct runs show a call that the service itself never
       -- answered (a direct reply list runs short), that is the known limitation; otherwise the bridge
